@@ -3,6 +3,8 @@ import CaddyModel.Util.Hex
 import CaddyModel.Util.DrvMain
 import CaddyModel.C05.Driver
 import CaddyModel.C05.Props
+import CaddyModel.C10.Driver
+import CaddyModel.C10.Props
 import CaddyModel.C18.Driver
 import CaddyModel.C18.Props
 import CaddyModel.C19.Driver
